@@ -185,23 +185,36 @@ Inductive cin :=
        operation invocation, Renew, GetStatus, Unsubscribe *)
 | CSubscribe (a : addr) (peer_tls : bool)   (* Subscribe at hosted service a: places NotifyTo / EndTo *)
 | CProbe (x : addr) (peer_tls : bool)
-| CStop.
+| CStop                                     (* stop_all (the Unsubscribe requests are separate CRequest inputs) *)
+| CRestart (x : addr) (peer_tls : bool) (hosted : list addr).
+    (* restart(): stop_all followed by start_all with the saved parameters; the peer found at the device address
+       may be of a different kind than at the first start *)
+
+(* stop_all: threads, SOAP clients and the event sink go away.  is_ssl_connection is NOT touched: it is the only
+   memory of force_ssl_connect=True (the constructor argument is not stored), so an enforced consumer stays
+   enforced across stop / start. *)
+Definition c_stop (st : cstate) : cstate := mkcstate (isc st) false None.
+
+(* start_all on a stopped consumer whose is_ssl_connection is i *)
+Definition c_start (fixed : bool) (cc : cconf) (i : option bool) (x : addr) (stls : bool) (hosted : list addr)
+  : cstate * list event * option cerr :=
+  let (ev1, r) := c_connect i (a_host x) stls in
+  match r with
+  | inr e => (mkcstate i false None, ev1, Some e)     (* is_ssl_connection keeps its value on failure paths *)
+  | inl i' =>
+      let ev2 := flat_map (fun a => contact RC (c_client_ctx i') (a_host a) stls) hosted in
+      let (ev3, s) := c_start_sink fixed cc i' in
+      match s with
+      | inr e => (mkcstate i' false None, ev1 ++ ev2 ++ ev3, Some e)
+      | inl sc => (mkcstate i' true (Some sc), ev1 ++ ev2 ++ ev3, None)
+      end
+  end.
 
 Definition cstep (fixed : bool) (cc : cconf) (st : cstate) (i : cin) : cstate * list event * option cerr :=
   match i with
   | CStart x stls hosted =>
-      if running st then (st, [], None) else
-      let (ev1, r) := c_connect (isc st) (a_host x) stls in
-      match r with
-      | inr e => (st, ev1, Some e)                      (* is_ssl_connection keeps its value on failure paths *)
-      | inl i' =>
-          let ev2 := flat_map (fun a => contact RC (c_client_ctx i') (a_host a) stls) hosted in
-          let (ev3, s) := c_start_sink fixed cc i' in
-          match s with
-          | inr e => (mkcstate i' false None, ev1 ++ ev2 ++ ev3, Some e)
-          | inl sc => (mkcstate i' true (Some sc), ev1 ++ ev2 ++ ev3, None)
-          end
-      end
+      if running st then (st, [], None) else c_start fixed cc (isc st) x stls hosted
+  | CRestart x stls hosted => c_start fixed cc (isc (c_stop st)) x stls hosted
   | CRequest a stls =>
       if running st then (st, contact RC (c_client_ctx (isc st)) (a_host a) stls, None) else (st, [], None)
   | CProbe a stls =>
@@ -216,7 +229,7 @@ Definition cstep (fixed : bool) (cc : cconf) (st : cstate) (i : cin) : cstate * 
                end, None)
       | _, _ => (st, [], None)
       end
-  | CStop => (mkcstate (isc st) false None, [], None)
+  | CStop => (c_stop st, [], None)
   end.
 
 Fixpoint crun (fixed : bool) (cc : cconf) (st : cstate) (ins : list cin) : list event :=
@@ -226,6 +239,13 @@ Fixpoint crun (fixed : bool) (cc : cconf) (st : cstate) (ins : list cin) : list 
   end.
 
 Definition c_init (i : option bool) : cstate := mkcstate i false None.
+
+(* consumer state after a history *)
+Fixpoint cfinal (fixed : bool) (cc : cconf) (st : cstate) (ins : list cin) : cstate :=
+  match ins with
+  | [] => st
+  | i :: r => cfinal fixed cc (fst (fst (cstep fixed cc st i))) r
+  end.
 
 (* ------------------------------------------------------------------ the property on events (boolean twins) *)
 Definition ctx_eqb (a b : ctxid) : bool :=
@@ -350,7 +370,10 @@ Fixpoint zlist_eqb (l1 l2 : list Z) : bool :=
   end.
 
 (* scenario operations of the harness *)
-Inductive sop := OProbe | OGetMdib | OOperate | ONotify | ORenew | OGetStatus | OUnsubscribe | OResubscribe.
+Inductive sop := OProbe | OGetMdib | OOperate | ONotify | ORenew | OGetStatus | OUnsubscribe | OResubscribe
+               | OStop | OStart | ORestart   (* consumer life cycle: stop_all(unsubscribe) / start_all again / restart() *)
+               | OPeerFlip.                  (* the peer answering at the provider address changes kind (TLS <-> plaintext);
+                                                only generated while the consumer is stopped *)
 
 (* device address handed to the consumer: as advertised | with the opposite scheme | not http(s) at all *)
 Inductive xkind := XSame | XFlip | XBad.
@@ -377,13 +400,12 @@ Definition both (pc : pconf) (fixed : bool) (cc : cconf) (s : sys) (pi : list pi
   let pr := pfold pc pi (fst s, []) in
   ((fst pr, fst cr), snd cr ++ snd pr).
 
-(* one scenario operation: what the consumer does and what the (honest) provider does in reaction; the provider
-   only sees a request when the consumer's connection got through *)
-Definition sys_step (c : scase) (s : sys) (o : sop) : sys * list event :=
+(* one scenario operation of a running consumer: what the consumer does and what the (honest) provider does in
+   reaction; the provider only sees a request when the consumer's connection got through.  ptls = kind of the port
+   found at the provider address *)
+Definition op_step (c : scase) (s : sys) (ptls : bool) (o : sop) : sys * list event :=
   let pc := s_pc c in let cc := s_cc c in let fx := s_fixed c in
   let cs := snd s in
-  if negb (running cs) then (s, []) else
-  let ptls := p_listen_tls pc in
   let ctls := c_listen_tls cc (isc cs) in
   let through := hs_ok (handshake (use_ssl (isc cs)) ptls) in
   let sinkaddr := mkaddr (match sink cs with Some sc => sc | None => Http end) (c_host cc) in
@@ -396,55 +418,82 @@ Definition sys_step (c : scase) (s : sys) (o : sop) : sys * list event :=
       both pc fx cc s (if through then [PRequest] else []) [CRequest (p_base pc) ptls]
   | OResubscribe =>
       both pc fx cc s (if through then [PSubscribe sinkaddr (Some sinkaddr)] else []) [CSubscribe (p_base pc) ptls]
+  | OStop =>       (* stop_all(unsubscribe=True) *)
+      both pc fx cc s (if through then [PRequest] else []) [CRequest (p_base pc) ptls; CStop]
+  | OStart | ORestart | OPeerFlip => (s, [])
   end.
 
 Definition start_code (e : option cerr) : Z :=
   match e with None => 0 | Some ESsl => 1 | Some ENotConnected => 2 | Some EUsage => 3 end.
 Definition isc_code (i : option bool) : Z := match i with None => 0 | Some false => 1 | Some true => 2 end.
 
-Definition sfold (c : scase) (l : list sop) (acc : sys * list event) : sys * list event :=
-  fold_left (fun acc o => let '(st, ev) := acc in let '(st', e) := sys_step c st o in (st', ev ++ e)) l acc.
+(* start_all (again = false: on a stopped consumer; again = true: restart()) with the provider's reactions: metadata
+   answers once the connection got through, then one Subscribe per hosted service *)
+Definition start_step (c : scase) (again : bool) (s : sys) (ptls : bool) : sys * list event * Z :=
+  let pc := s_pc c in let cc := s_cc c in let fx := s_fixed c in
+  let hosted := repeat (p_base pc) n_hosted in
+  let '(cs1, ev1, err) := cstep fx cc (snd s) (if again then CRestart (x_given c) ptls hosted
+                                               else CStart (x_given c) ptls hosted) in
+  let connected := match err with Some ESsl | Some ENotConnected => false | _ => true end in
+  let p1 := if connected then pfold pc [PGetMetadata; PHostedMetadata] (fst s, []) else (fst s, []) in
+  let r2 := if running cs1 then op_step c (fst p1, cs1) ptls OResubscribe else ((fst p1, cs1), []) in
+  (fst r2, ev1 ++ snd p1 ++ snd r2, start_code err).
 
-(* result of the constructor / start_all (None = the constructor raised ValueError), final consumer state and all
-   events of the scenario *)
-Definition run_events (c : scase) : option (option cerr * cstate) * list event :=
+(* scenario state: provider + consumer, kind of the port at the provider address; accumulated events and the
+   outcome codes of all start attempts *)
+Definition sacc := ((sys * bool) * (list event * list Z))%type.
+
+Definition sys_step (c : scase) (acc : sacc) (o : sop) : sacc :=
+  let '((s, ptls), (evs, codes)) := acc in
+  let run := running (snd s) in
+  match o with
+  | OPeerFlip => ((s, negb ptls), (evs, codes))
+  | OStart =>
+      if run then acc else
+      let '(s', ev, code) := start_step c false s ptls in ((s', ptls), (evs ++ ev, codes ++ [code]))
+  | ORestart =>    (* stop_all() with unsubscribe, then start_all *)
+      let r := if run then op_step c s ptls OUnsubscribe else (s, []) in
+      let '(s', ev, code) := start_step c true (fst r) ptls in
+      ((s', ptls), (evs ++ snd r ++ ev, codes ++ [code]))
+  | _ =>
+      if run then let r := op_step c s ptls o in ((fst r, ptls), (evs ++ snd r, codes)) else acc
+  end.
+
+Definition sfold (c : scase) (l : list sop) (acc : sacc) : sacc := fold_left (sys_step c) l acc.
+
+(* None = the constructor raised ValueError; otherwise the start codes, the final consumer state and the final
+   port kind; and all events of the scenario *)
+Definition run_events (c : scase) : option (list Z * cstate) * list event :=
   let pc := s_pc c in let cc := s_cc c in let fx := s_fixed c in
   let p0 := pfold pc [PStart; PPublish] ([], []) in
-  let ptls := p_listen_tls pc in
   (* SdcConsumer.__init__ raises ValueError for an address that does not start with 'http' and for
      force_ssl_connect without a container *)
   match (match s_x c with XBad => None | _ => c_ctor (c_mode cc) end) with
   | None => (None, snd p0)
   | Some i0 =>
-      let hosted := repeat (p_base pc) n_hosted in
-      let '(cs1, ev1, err) := cstep fx cc (c_init i0) (CStart (x_given c) ptls hosted) in
-      (* the provider answers the metadata requests once the connection got through *)
-      let connected := match err with Some ESsl | Some ENotConnected => false | _ => true end in
-      let p1 := if connected then pfold pc [PGetMetadata; PHostedMetadata] (fst p0, []) else (fst p0, []) in
-      (* start_all subscribes at every hosted service *)
-      let r2 := if running cs1 then sys_step c (fst p1, cs1) OResubscribe else ((fst p1, cs1), []) in
-      let r3 := sfold c (s_ops c) (fst r2, []) in
-      let cs3 := snd (fst r3) in
+      let r3 := sfold c (OStart :: s_ops c) (((fst p0, c_init i0), p_listen_tls pc), (snd p0, [])) in
+      let s3 := fst (fst r3) in let ptls := snd (fst r3) in
+      let cs3 := snd s3 in
       let ev4 := if running cs3 && s_provider_first c
-                 then snd (both pc fx cc (fst r3) [PEnd 0 (c_listen_tls cc (isc cs3))] [])
+                 then snd (both pc fx cc s3 [PEnd 0 (c_listen_tls cc (isc cs3))] [])
                  else if running cs3
-                 then snd (both pc fx cc (fst r3) [] [CRequest (p_base pc) ptls])      (* unsubscribe_all *)
+                 then snd (both pc fx cc s3 [] [CRequest (p_base pc) ptls])      (* unsubscribe_all *)
                  else [] in
-      (Some (err, cs3), snd p0 ++ ev1 ++ snd p1 ++ snd r2 ++ snd r3 ++ ev4)
+      (Some (snd (snd r3), cs3), fst (snd r3) ++ ev4)
   end.
 
-(* statuses [ctor; start; is_ssl_connection; provider port TLS; sink port TLS (2 = not started); provider events
-   secure; consumer events secure] and the event codes *)
+(* statuses [ctor; is_ssl_connection; provider port TLS at the beginning; sink port TLS (2 = not running at the end);
+   provider events secure; consumer events secure] ++ outcome of every start attempt, and the event codes *)
 Definition run_case (c : scase) : list Z * list Z :=
   let cc := s_cc c in
   let ptls := p_listen_tls (s_pc c) in
   let '(r, evs) := run_events c in
   (match r with
-   | None => [1; 9; 3; zb ptls; 2; zb (forallb (secure_b RP) evs); 1]
-   | Some (err, cs3) =>
-       [0; start_code err; isc_code (isc cs3); zb ptls;
+   | None => [1; 3; zb ptls; 2; zb (forallb (secure_b RP) evs); 1]
+   | Some (codes, cs3) =>
+       [0; isc_code (isc cs3); zb ptls;
         if running cs3 then zb (c_listen_tls cc (isc cs3)) else 2;
-        zb (forallb (secure_b RP) evs); zb (forallb (secure_b RC) evs)]
+        zb (forallb (secure_b RP) evs); zb (forallb (secure_b RC) evs)] ++ codes
    end, map code_event evs).
 
 Definition trace_eqb (a b : list Z * list Z) : bool :=
